@@ -157,6 +157,12 @@ def sp_fresh(eng, node, st):
     return vbool(z3.And(v.t >= st.old[1].alloc, v.t < st.heap.alloc))
 
 
+def sp_allocated(eng, node, st):
+    """allocated(x): x is a reference that exists now (below the current allocation mark) and is not None"""
+    v = eng.ev(node.args[0], st)
+    return vbool(z3.And(v.t >= 1, v.t < st.heap.alloc))
+
+
 def sp_same(eng, node, st):
     a, b = eng.ev(node.args[0], st), eng.ev(node.args[1], st)
     if a.t is None or b.t is None:
@@ -375,7 +381,7 @@ def sp_cnt(eng, node, st):
 
 
 SPEC_BUILTINS = dict(cnt=sp_cnt, psum=sp_psum, rsum=sp_rsum, norm=sp_norm, sqrt=sp_sqrt, matmul=sp_matmul, copyof=sp_copyof, rows_of=sp_rows_of, cov=sp_cov, colmean=sp_colmean, transpose=sp_transpose, eigh_of=sp_eigh_of, forall=sp_forall, exists=sp_exists, implies=sp_implies, ite=sp_ite, old=sp_old,
-                     fresh=sp_fresh, same=sp_same, unchanged=sp_unchanged, isnone=sp_isnone, real=sp_real,
+                     fresh=sp_fresh, allocated=sp_allocated, same=sp_same, unchanged=sp_unchanged, isnone=sp_isnone, real=sp_real,
                      eqcontent=sp_eqcontent, let=sp_let, alloc_now=sp_alloc)
 
 
